@@ -31,6 +31,7 @@ func init() {
 		c01R1(c)
 		c01R2(c, u)
 		c01R3R4(c, u)
+		noBoxEntryDuringChannelDifference(c, u, "C01.R7")
 		c01R6(c, "C01.R6")
 	})
 	register("C02", []string{updPkg, "tg"}, func(c *engine.Ctx) {
@@ -390,6 +391,17 @@ func c01R3R4(c *engine.Ctx, u *updFns) {
 			}
 			c.Check(on, "C01.R4", "applyPending/accepted-only-on-apply#"+ordinalCall(p, call), call.Pos(), "the list handed to apply may grow only on the apply edge")
 		}
+		// every element checkGap accepted is handed on: from the apply edge the scan cannot return
+		// to the next element without passing the append (a filter between them would drop an
+		// update whose position is then adopted and persisted)
+		for ed := range eApply {
+			n4++
+			isAppend := func(i ssa.Instruction) bool {
+				ci, ok := i.(ssa.CallInstruction)
+				return ok && engine.CalleeID(ci.Common()) == "builtin.append"
+			}
+			c.Check(!(engine.PathQuery{Fn: p, FromBlk: ed[1], Barrier: isAppend}).Reaches(cg), "C01.R4", "applyPending/every-accepted-element-handed-on", cg.Pos(), "an element on the apply edge must always be appended to the list handed to apply: the running state moves to its position")
+		}
 		// refetch leaves the scan
 		n4++
 		leaves := len(eRefetch) >= 1
@@ -462,6 +474,41 @@ func sameValue(a, b ssa.Value) bool {
 		return false
 	}
 	return strings.HasPrefix(da, "p:")
+}
+
+// pendingHandsOn (shared by C01.R4 and C03.R6): in applyPending every element on the apply
+// edge of checkGap is appended to the list handed to apply before the scan continues.
+func pendingHandsOn(c *engine.Ctx, u *updFns, rule string) {
+	p := u.applyPending
+	apply, _ := constInt(c, updPkg, "gapApply")
+	pcg := engine.CallsTo(p, false, updPkg+".checkGap")
+	if len(pcg) != 1 {
+		c.Fail(rule, "applyPending/one-gap-check", p.Pos(), "applyPending must scan with one checkGap call (found %d)", len(pcg))
+		return
+	}
+	cg := pcg[0].(*ssa.Call)
+	eApply := engine.EdgesWhere(p, func(k engine.Cmp) bool {
+		kv, isK := engine.ConstInt(k.Y)
+		return engine.Unwrap(k.X) == ssa.Value(cg) && isK && kv == apply && k.Op == token.EQL
+	})
+	isAppend := func(i ssa.Instruction) bool {
+		ci, ok := i.(ssa.CallInstruction)
+		return ok && engine.CalleeID(ci.Common()) == "builtin.append"
+	}
+	ok := len(eApply) == 1
+	for ed := range eApply {
+		if (engine.PathQuery{Fn: p, FromBlk: ed[1], Barrier: isAppend}).Reaches(cg) {
+			ok = false
+		}
+	}
+	c.Check(ok, rule, "applyPending/position-covers-only-handed-on", cg.Pos(), "the position applyPending adopts (and the apply callback persists) advances over an element only if that element is in the list handed to the handler: no path from the apply edge back to the scan may skip the append")
+}
+
+// noBoxEntryDuringChannelDifference (C01.R7): while channelState.getDifference runs, the
+// worker must not feed pushed updates into its sequence box (they are covered by the
+// difference being applied and would be delivered twice).
+func noBoxEntryDuringChannelDifference(c *engine.Ctx, u *updFns, rule string) {
+	c.Check(!reachesFn(u, u.cgd, u.handle), rule, "channel.getDifference/no-sequence-box-entry", u.cgd.Pos(), "channelState.getDifference must not reach sequenceBox.Handle (through sendOut or any helper): a queued pushed update handled between the fetch and the position jump is delivered again from the difference")
 }
 
 // phiReaches: v is phi or derives from it through phis (loop exit values).
@@ -996,6 +1043,29 @@ func c02(c *engine.Ctx, u *updFns) {
 				n2++
 				c.Check(!skip, "C02.R2", key+"/not-skipped-when-non-empty", a.assert.Pos(), "the position can be advanced on a path that neither handed %s over nor tested it empty: a difference carrying only this field is lost", f)
 				for _, s := range sinks {
+					// R9: the envelope used to re-route difference contents must not carry a seq:
+					// handleSeq would gap-check the whole batch against the seq box
+					if s.call.Common().StaticCallee() == u.handleUpdates {
+						env := engine.Args(s.call.Common())[2]
+						seqV, seqS := engine.StructFieldValue(env, "Seq"), engine.StructFieldValue(env, "SeqStart")
+						n6++
+						c.Check(seqV == nil && seqS == nil, "C02.R9", key+"/envelope-without-seq", s.call.Pos(), "difference contents are re-routed in an UpdatesCombined that sets Seq/SeqStart: handleSeq then treats the batch as a seq-ordered update and drops or postpones it as a whole")
+					}
+					// R10: a hand-over that can fail without applying anything (handleUpdates: nested
+					// fetch; sendOut: context) must not be followed by the position jump on its error edge
+					if s.kind != "deliver" {
+						if sc, isCall := s.call.(*ssa.Call); isCall {
+							okEdges := engine.EdgesWhere(a.fn, func(k engine.Cmp) bool { return engine.Unwrap(k.X) == ssa.Value(sc) && engine.IsNil(k.Y) && k.Op == token.EQL })
+							swallowed := false
+							for _, adv := range append(append([]ssa.CallInstruction{}, mem...), persist...) {
+								if (engine.PathQuery{Fn: a.fn, From: sc, Cut: okEdges, Barrier: rec}).Reaches(adv) {
+									swallowed = true
+								}
+							}
+							n6++
+							c.Check(len(okEdges) == 1 && !swallowed, "C02.R10", key+"/"+s.call.Common().StaticCallee().Name()+"/failed-hand-over-stops-the-arm", s.call.Pos(), "when handing over %s fails (e.g. the nested difference fetch inside handleUpdates) the arm still moves the position to the difference's end: the updates are skipped for good instead of being fetched again", f)
+						}
+					}
 					// R7: no advance before the sink
 					for _, adv := range mem {
 						n6++
@@ -1346,4 +1416,5 @@ func c03(c *engine.Ctx, u *updFns) {
 	c.Floor("C03.R3", 5, n3)
 	c.Floor("C03.R4", 2, n4)
 	c02R8(c, u, "C03.R5")
+	pendingHandsOn(c, u, "C03.R6")
 }
